@@ -176,8 +176,21 @@ def clean_noise(rng, maxlen=40):
 def bad_frame(rng, p):
     """a frame-like byte string that is NOT the canonical frame of any payload it could be read as,
     with the checksum recomputed for the manipulated framing"""
-    kind = rng.randrange(13)
+    kind = rng.randrange(14)
     body = START + esc(p)
+    if kind == 13:
+        # a payload ending in 1-3 0x1b with an aligned body (no padding): the end sequence follows the run directly
+        # (1b^j 1b1b1b1b 1a 00 crc).  One 0x1b of the run/escape in front of 0x1a is overwritten, checksum recomputed
+        j = rng.randint(1, 3)
+        q = bytes(p[:(len(p) // 4) * 4]) + bytes([0x55] * (4 - j)) + bytes([0x1b] * j)
+        while len(START + esc(q)) % 4:
+            q = b"\x55" + q
+        f = bytearray(frame(q))
+        pos = len(f) - 4 - 4 - rng.randint(0, j - 1) - 1 if rng.random() < 0.5 else len(f) - 4 - rng.randint(1, 4)
+        f[pos] = rng.choice([0x00, 0x1a, 0x01, 0x55])
+        c = crc16(bytes(f[:-2]))
+        f[-2], f[-1] = c & 0xFF, c >> 8
+        return bytes(f)
     if kind == 12:                                  # checksum manipulations on an otherwise canonical frame
         f = bytearray(frame(p))
         how = rng.randrange(5)
@@ -213,8 +226,8 @@ def bad_frame(rng, p):
         return bytes(f)
     if kind == 3:                                   # truncate
         return bytes(f[:rng.randrange(len(f))])
-    if kind == 4:                                   # wrong pad count, CRC recomputed
-        wp = rng.choice([x for x in range(0, 6) if x != pad])
+    if kind == 4:                                   # wrong pad count (also far beyond 3: 0x80, 0xf0, 0xff), CRC recomputed
+        wp = rng.choice([x for x in range(0, 6) if x != pad] + [16, 0x7f, 0x80, 0xef, 0xf0, 0xf1, 0xff])
         return end_seq(body + bytes(pad), wp)
     if kind == 5:                                   # pad bytes counted as data / too few zeros
         wp = rng.randint(0, 3)
@@ -258,8 +271,20 @@ def false_start(rng, p):
         pre = bytes([0x1b] * 4 + [1] * j + [rng.choice([0x00, 0x1a, 0x55, 0x1b])] + [1] * (4 - j))
     elif k == 3:
         pre = START[rng.randint(1, 7):]
-    else:
+    elif k == 4:
         pre = bytes([0x1b] * rng.randint(5, 9) + [1] * rng.randint(1, 3) + [0x1b] * rng.randint(1, 4) + [1] * 4)
+    else:
+        pre = b""
+    if rng.random() < 0.25:
+        # ... or, inside a running transmission, an escape sequence that only begins like a restart (1b1b1b1b 01 xx yy zz)
+        # followed by the rest of a canonical frame: no restart happens there, no payload may be reported
+        q = payload(rng, rng.randint(0, 8))
+        body = START + esc(q)
+        body += bytes((4 - len(body) % 4) % 4)
+        look = bytes([1] + [rng.choice([0x00, 0x01, 0x1b, 0x55, rng.getrandbits(8)]) for _ in range(3)])
+        if look == b"\x01\x01\x01\x01":
+            look = b"\x01\x01\x01\x00"
+        return body + bytes([0x1b] * 4) + look + frame(p)[8:]
     return pre + frame(p)[8:]
 
 
@@ -383,6 +408,8 @@ def enc_octet(rng, b):
 
 def opt_octet(rng, p_none=0.4, lo=0, hi=12):
     """returns (text, encoding)"""
+    if hi == 12 and rng.random() < 0.25:
+        hi = rng.choice([16, 30, 40])          # lengths whose TLF needs a second byte (0x81 0x..)
     if absent(rng, p_none):
         return "~", b"\x01"
     b = rnd_bytes(rng, lo, hi)
@@ -564,7 +591,10 @@ def close_message(rng, chunks, good_crc=True):
     c = crc16(pre)
     c = ((c & 0xFF) << 8) | (c >> 8)          # byte-swapped
     if not good_crc:
-        c ^= 1 << rng.randrange(16)
+        if rng.random() < 0.3 and (c & 0xFF) != (c >> 8):
+            c = ((c & 0xFF) << 8) | (c >> 8)      # the two checksum bytes exchanged
+        else:
+            c ^= 1 << rng.randrange(16)
     if c < 256 and rng.random() < 0.5:
         return pre + bytes([0x62, c]) + b"\x00"
     return pre + prim_tlf(rng, 6, 2, nonmin=0.05) + c.to_bytes(2, "big") + b"\x00"
